@@ -17,11 +17,28 @@ RANDOMISED = ["PCGrad", "Random", "GradDrop"]
 ALL = DETERMINISTIC + RANDOMISED
 TAU = {"float64": 1e-9, "float32": 1e-4}
 TAU_CAGRAD = {"float64": 1e-4, "float32": 5e-3}  # conic solver (CLARABEL default tolerances ~1e-8 on the objective => ~1e-4 on a degenerate minimiser): observed up to 1.5e-5 on duplicated rows
-COND_MAX = {"float64": 1e6, "float32": 1e3}
+COND_MAX = {"float64": 1e6, "float32": 3e3}
 
 
-def tau(name, dname):
-    return TAU_CAGRAD[dname] if name == "CAGrad" else TAU[dname]
+def tau(name, dname, desc=None, J=None):
+    """Tolerance in units of the case's scale.  For the pseudo-inverse based IMTL-G / ConFIG the attainable accuracy is eps x the
+    condition number of the operator they invert (J J^T, resp. the unit rows): tolerance max(tau, 10 eps kappa)."""
+    t = TAU_CAGRAD[dname] if name == "CAGrad" else TAU[dname]
+    if desc is not None and J is not None and name in ("IMTLG", "ConFIG"):
+        k = kappa(name, J)
+        if np.isfinite(k):
+            t = max(t, 10 * EPS[dname] * k)  # calibrated: unchanged tree <= 1.2 eps kappa (ConFIG float32, kappa up to 3e3)
+    return t
+
+
+def kappa(name, J) -> float:
+    if name == "IMTLG":
+        sv = M.singular_values(J @ J.T)
+    else:
+        sv = M.singular_values(M.unit_rows(J))
+    if sv.size == 0 or sv[-1] == 0:
+        return float("inf")
+    return float(sv[0] / sv[-1])
 
 
 def config(rng, name, m, dname, with_pref=None):
@@ -100,7 +117,7 @@ def guard(desc, J: np.ndarray, dname: str, orders=None):
         _, rho2 = R.min_norm_point(G) if m <= 8 else (None, None)
         if rho2 is None:
             return "cagrad_m_gt_8"
-        if np.sqrt(rho2) < {"float64": 1e-2, "float32": 5e-2}[dname] * s:
+        if np.sqrt(rho2) < {"float64": 2e-3, "float32": 1e-2}[dname] * s:
             return "cagrad_near_stationary"
         # g_w_norm threshold of the implementation (on the normalised Gramian)
         return None
